@@ -6,6 +6,7 @@ use crate::explore::{Chooser, Config, Outcome};
 use crate::oracle::comp::{self, Enc};
 use crate::oracle::wire::{self, ParseEnd};
 use crate::report::{Property, Section, Tier};
+use bytes::Bytes;
 use http::{HeaderMap, HeaderValue, StatusCode};
 use std::pin::Pin;
 use std::task::{Context, Poll, Waker};
@@ -429,6 +430,87 @@ fn cases(tier: Tier) -> Vec<Case> {
     out
 }
 
+// ---------------------------------------------------------------------------------------------
+// long runs of empty DATA frames, each run decoded in a process of its own: the failure they
+// provoke when mishandled (unbounded recursion) does not unwind, it kills the process
+// ---------------------------------------------------------------------------------------------
+
+struct FrameList {
+    frames: std::collections::VecDeque<Bytes>,
+    trailers: Option<HeaderMap>,
+}
+
+impl http_body::Body for FrameList {
+    type Data = Bytes;
+    type Error = Status;
+    fn poll_frame(mut self: Pin<&mut Self>, _cx: &mut Context<'_>) -> Poll<Option<Result<http_body::Frame<Bytes>, Status>>> {
+        if let Some(f) = self.frames.pop_front() {
+            return Poll::Ready(Some(Ok(http_body::Frame::data(f))));
+        }
+        match self.trailers.take() {
+            Some(t) => Poll::Ready(Some(Ok(http_body::Frame::trailers(t)))),
+            None => Poll::Ready(None),
+        }
+    }
+}
+
+/// Child-process entry: decode [7] [1,2,3] with `n` empty DATA frames at position `at`
+/// (0 = in front, 1 = inside the first prefix, 2 = between the messages, 3 = before the trailers).
+/// Exit code 0 = the two messages and a clean end; 3 = anything else.
+pub fn isolated_empty_run(n: usize, at: usize) -> i32 {
+    let stream = valid_stream(&[vec![7], vec![1, 2, 3]], None, false);
+    let cut = [0usize, 3, 6, stream.len()][at.min(3)];
+    let mut frames = std::collections::VecDeque::new();
+    if cut > 0 {
+        frames.push_back(Bytes::copy_from_slice(&stream[..cut]));
+    }
+    for _ in 0..n {
+        frames.push_back(Bytes::new());
+    }
+    if cut < stream.len() {
+        frames.push_back(Bytes::copy_from_slice(&stream[cut..]));
+    }
+    let body = FrameList { frames, trailers: trailers(Trl::Ok) };
+    let s = Streaming::new_response(RawCodec::new(BufferSettings::new(8, 16)).decoder(), body, StatusCode::OK, None, None);
+    let (evs, stalled) = drive(s, |m: &Vec<u8>| m.clone());
+    let msgs: Vec<&Vec<u8>> = evs.iter().filter_map(|e| if let Ev::Msg(m) = e { Some(m) } else { None }).collect();
+    let clean = !stalled && msgs == vec![&vec![7u8], &vec![1u8, 2, 3]] && !evs.iter().any(|e| matches!(e, Ev::Err(_)));
+    if clean {
+        0
+    } else {
+        eprintln!("events: {evs:?} stalled={stalled}");
+        3
+    }
+}
+
+#[derive(Clone, Debug)]
+struct RunCase {
+    empties: usize,
+    at: usize,
+}
+
+fn run_body(c: &RunCase, _ch: &Chooser) -> Outcome {
+    let exe = std::env::current_exe().unwrap_or_else(|e| crate::explore::machinery(format!("current_exe: {e}")));
+    let out = std::process::Command::new(exe)
+        .args(["--isolated", "c07-empty-run", &c.empties.to_string(), &c.at.to_string()])
+        .stdin(std::process::Stdio::null())
+        .stdout(std::process::Stdio::null())
+        .stderr(std::process::Stdio::piped())
+        .output()
+        .unwrap_or_else(|e| crate::explore::machinery(format!("cannot start the isolated execution: {e}")));
+    let mut o = Outcome::new(format!("exit={:?}", out.status.code()));
+    o.nontrivial = true;
+    match out.status.code() {
+        Some(0) => {}
+        Some(3) => o.violate("empty-frames-disturb-decoding", format!("{} empty DATA frames at position {}: {}", c.empties, c.at, String::from_utf8_lossy(&out.stderr).lines().last().unwrap_or(""))),
+        other => o.violate(
+            "process-killed-by-empty-frames",
+            format!("decoding a valid stream with {} empty DATA frames at position {} ended the process abnormally (exit {:?}; {}): a poll that never completes", c.empties, c.at, other, String::from_utf8_lossy(&out.stderr).lines().last().unwrap_or("no message")),
+        ),
+    }
+    o
+}
+
 pub fn property(tier: Tier) -> Property {
     let rule = "cases: every byte string of length <= N over {00,01,02,05,80,ff} and every truncation/substitution/deletion/duplication of valid 1-3 message streams (identity/gzip/deflate/zstd; raw and prost decoders), x direction x trailers x injected body errors, plus valid streams read under a receiver size limit placed below / at / between / above the on-the-wire and the decompressed length of a well compressible message, plus a 400-byte message dripped byte by byte (complete and truncated), plus small frame-shaped messages around a 70 000-byte one delivered whole / in large blocks (complete and truncated); environment: every chunking with <= bound cuts/Pending/empty-frame deviations plus byte-by-byte drip; polled 5 more times after the first terminal event. Non-trivial = input is not a clean valid stream (malformed, truncated, body error, or non-OK trailers); distinct = distinct (case, choice vector)";
     let describe = |c: &Case| {
@@ -462,6 +544,21 @@ pub fn property(tier: Tier) -> Property {
         body,
     )
     .mins(1000, 10, 100);
+    let mut rcases = vec![];
+    for empties in tier.q(vec![50usize, 5_000, 100_000], vec![50, 5_000, 100_000, 1_000_000]) {
+        for at in 0..4 {
+            rcases.push(RunCase { empties, at });
+        }
+    }
+    let runs = Section::new(
+        "empty-frame-runs",
+        Config { hang_secs: 120, ..Default::default() },
+        "cases: a valid two-message response stream with a run of 50 / 5 000 / 100 000 (thorough also 10^6) empty DATA frames in front of it, inside the first prefix, between the messages or before the trailers, all immediately ready; each case is decoded by the real Streaming in a child process of its own (mc --isolated), because the way such a run goes wrong — recursion per frame — ends in a stack overflow that no unwinding catches. Oracle: the child decodes both messages and a clean end (exit 0); any abnormal end of the process is a poll that never completed. All cases count as non-trivial.",
+        rcases,
+        |c: &RunCase| format!("{c:?}"),
+        run_body,
+    )
+    .mins(12, 1, 12);
     Property {
         id: "C07",
         level: "model_checking",
@@ -470,7 +567,7 @@ pub fn property(tier: Tier) -> Property {
             "payload values outside the stated alphabets/mutation menus are not covered".into(),
             "flate2/zstd/prost are trusted as reference decoders".into(),
         ],
-        sections: vec![sec, sec2],
+        sections: vec![sec, sec2, runs],
         extra: Default::default(),
     }
 }
